@@ -163,6 +163,26 @@ def prepare(tier, seed=1):
         return info
 
 
+def prepare_lib(tier):
+    """Build the library-only harness against the current /repo."""
+    key = repo_key()
+    wd = os.path.join(WORK, key, "lib")
+    with Lock():
+        pj = os.path.join(wd, "prep.json")
+        if os.path.exists(pj):
+            return json.load(open(pj))
+        gc_work(key)
+        shutil.rmtree(wd, ignore_errors=True)
+        os.makedirs(os.path.join(wd, "bin"))
+        info = {"key": key, "tier": tier, "work": wd, "errors": [], "genmod": wd}
+        p = run(["go", "build", "-o", os.path.join(wd, "bin", "corr"), "./cmd/libonly"], cwd=HARNESS, check=False)
+        if p.returncode != 0:
+            info["errors"].append("library harness does not build: " + (p.stdout or "")[-3000:])
+        info["corr"] = os.path.join(wd, "bin", "corr")
+        json.dump(info, open(pj, "w"), indent=1)
+        return info
+
+
 if __name__ == "__main__":
     tier = sys.argv[1] if len(sys.argv) > 1 else "quick"
     i = prepare(tier)
